@@ -544,6 +544,114 @@ pub fn check_structure<V: Copy>(pma: &Pma<V>, trie: Option<&SymTrie>, opts: &Opt
     r
 }
 
+#[derive(Default, Debug)]
+pub struct PairReport {
+    pub differences: Vec<String>,
+    pub pairs: usize,
+    pub transitions: u64,
+    pub truncated: bool,
+    pub sampled: bool,
+}
+
+/// Behavioural equivalence of two real automata built from the same patterns (e.g. with different
+/// builder settings): product walk from (root, root) over every symbol with each automaton's own
+/// transition function; every pair reached must agree on what a search can observe there — the
+/// whole output list (Standard), or whether the state is the root plus the head of the output list
+/// (leftmost kinds: that is all the leftmost iterator reads). Both automata must have passed the
+/// closure and ranking monitors. Slot 0 is taken to be the root (searches start there).
+pub fn check_pair_equivalence(a: &Pma<u32>, b: &Pma<u32>, transition_cap: u64) -> PairReport {
+    let mut r = PairReport::default();
+    let kind = a.kind();
+    if b.kind() != kind {
+        r.differences.push("the two automata have different match kinds".into());
+        return r;
+    }
+    let mut symbols: Vec<u32> = a.symbols().iter().map(|x| x.0).collect();
+    symbols.extend(b.symbols().iter().map(|x| x.0));
+    symbols.sort_unstable();
+    symbols.dedup();
+    let (oa, ob) = (a.outputs(), b.outputs());
+    let list = |p: &Pma<u32>, outs: &Vec<daachorse::verif::RawOutput<u32>>, slot: u32| -> Vec<(u32, u32)> {
+        let mut v = Vec::new();
+        let mut pos = p.state(slot).map_or(0, |s| s.output_pos);
+        while pos != 0 && v.len() <= outs.len() {
+            let o = outs[(pos - 1) as usize];
+            v.push((o.value, o.length));
+            if kind != MatchKind::Standard {
+                break;
+            }
+            pos = o.parent;
+        }
+        v
+    };
+    let charwise = a.mapper().is_some();
+    let enc = move |sy: u32| -> Vec<u8> {
+        if charwise {
+            let mut buf = [0u8; 4];
+            char::from_u32(sy).map_or(vec![b'?'], |c| c.encode_utf8(&mut buf).as_bytes().to_vec())
+        } else {
+            vec![sy as u8]
+        }
+    };
+    let est_states = a.num_states().max(b.num_states()) as u64 + 2;
+    let full = est_states * symbols.len() as u64 <= transition_cap;
+    r.sampled = !full;
+    let pair_cap = 4 * est_states as usize + 1024;
+    let mut pairs: Vec<(u32, u32, u32, u32)> = vec![(0, 0, u32::MAX, 0)];
+    let mut seen: HashSet<(u32, u32)> = HashSet::new();
+    seen.insert((0, 0));
+    let mut k = 0usize;
+    while k < pairs.len() {
+        let (sa, sb, _, _) = pairs[k];
+        let (la, lb) = (list(a, &oa, sa), list(b, &ob, sb));
+        let root_differs = kind != MatchKind::Standard && ((sa == 0) != (sb == 0));
+        if la != lb || root_differs {
+            let mut syms: Vec<u32> = Vec::new();
+            let mut j = k;
+            while pairs[j].2 != u32::MAX {
+                syms.push(pairs[j].3);
+                j = pairs[j].2 as usize;
+            }
+            syms.reverse();
+            let mut w: Vec<u8> = Vec::new();
+            for sy in syms {
+                w.extend(enc(sy));
+            }
+            if r.differences.len() < MAXV {
+                r.differences.push(format!(
+                    "after reading the haystack b\"{}\" the first automaton is in slot {sa} (root: {}) with outputs (value,len) {:?}, the second in slot {sb} (root: {}) with outputs {:?}",
+                    w.escape_ascii(),
+                    sa == 0,
+                    &la[..la.len().min(6)],
+                    sb == 0,
+                    &lb[..lb.len().min(6)]
+                ));
+            }
+            if r.differences.len() >= MAXV {
+                break;
+            }
+            k += 1;
+            continue;
+        }
+        let step = if full { 1 } else { (symbols.len() / 24).max(1) };
+        for (i, &sym) in symbols.iter().enumerate() {
+            if !full && (i + sa as usize) % step != 0 {
+                continue;
+            }
+            let na = unsafe { a.next_state(sa, sym) };
+            let nb = unsafe { b.next_state(sb, sym) };
+            r.transitions += 1;
+            if seen.len() < pair_cap && seen.insert((na, nb)) {
+                pairs.push((na, nb, k as u32, sym));
+            }
+        }
+        k += 1;
+    }
+    r.truncated = seen.len() >= pair_cap;
+    r.pairs = pairs.len();
+    r
+}
+
 /// Symbol sequences of the patterns of a case.
 pub fn pattern_symbols(patterns: &[Vec<u8>], charwise: bool) -> Vec<Vec<u32>> {
     patterns
